@@ -86,6 +86,15 @@ chk("C19", "exploration", "E2-configuration-enumerator",
     "All codec x audio x layout x metadata configurations x dimensions x frame counts, all channel/rate combinations, and the fragmented configurations with their init and media segments are produced and every fixed-layout box (ftyp, mvhd, tkhd, mdhd, hdlr, vmhd, smhd, dref/url, stsd, sample entries, avcC, hvcC, av1C, vpcC, esds, dOps, trex, mfhd, tfhd, tfdt, trun) is checked for size, version, flags, reserved bits and recovered values.",
     "Trusted base: the reader's field decoders, written from ISO/IEC 14496-12/-14/-15 and the AV1, VP9 and Opus bindings.", "DESIGN.md §4 C19")
 
+chk("C09", "model_checking", "E1-history-explorer",
+    "bounded exhaustive enumeration of A/V histories over start-time / composition-offset / audio-lead alphabets on the real muxer; edit-list-aware presentation-timeline oracle",
+    "Every A/V history over the stated start-time, composition-offset, audio-lead and step alphabets is executed; the presentation time of every audio sample relative to the first video frame is rebuilt from stts/ctts (and edit lists when present) and compared with the submitted difference within one tick. The pinned tree's missing start offset is a recorded finding with a narrowly matched signature.",
+    READER, "DESIGN.md §4 C09")
+chk("C17", "model_checking", "E4-baton-scheduler + E1 path comparison",
+    "stateless DFS over all thread schedules up to a preemption bound (real OS threads under a cooperative baton scheduler), plus exhaustive call-granularity interleavings on one thread and differential comparison of equivalent API paths",
+    "2-3 real threads run muxer programs under a scheduler that owns every interleaving decision at the stated scheduling points; every schedule up to the preemption bound is executed and each program must reproduce its solo results, bytes and thread-local log; schedules are replayed to confirm determinism. Two instances on one thread are interleaved in every order; equivalent API paths, sink types, cross-thread moves and convenience-vs-explicit writes are compared byte-for-byte; wall-clock independence is checked under an LD_PRELOAD clock shift. The for-all-W auto-trait clause is a generic function compiled into the harness.",
+    "Trusted base: the scheduler (harness/oracle/src/sched.rs, with its own lost-update unit test); interleavings finer than the scheduling points are not explored (muxide has no shared mutable state outside the thread-local log - scan in the evidence).", "DESIGN.md §4 C17")
+
 NOT_YET = {
 }
 
